@@ -261,6 +261,9 @@ def _explore_chunk(modname, hname, prefix, budget_s, max_paths, seed, want_funcs
         if h.witness and len(witnesses) < n_witness and rec['status'] == 'ok' and rec['claims'] \
                 and all(s in ('unsat', 'folded') for _, s, _ in rec['claims']):
             pm = ctx.path_model()
+            if pm is None:
+                witnesses.append({'decisions': rec['decisions'], 'ok': None, 'status': 'no-model', 'n_claims': 0, 'failed': [],
+                                  'error': 'solver produced no model of the path condition within its limits', 'inputs': {}})
             if pm is not None:
                 vals, _m = pm
                 crec = run_concrete(h, vals, exact=h.exact)
